@@ -112,6 +112,44 @@ def check_config(cfg, w, rep):
                               "already exists and is longer than the data, its old tail survives and the file is not the stored bytes" % (
                                   short(lf_.path), sorted(fl)), loc=e.loc(), config=cfg, rule="d-dest-replaced")
 
+    # ---- (e) success means the primitive succeeded: in every function that calls a copy / reflink / hard-link primitive, a
+    #      success return is reachable only through the Ok arm of that call (or is that call's result handed on): no error kind
+    #      — "already exists", say — is turned into Ok, because then the destination holds whatever was there before ----
+    n_prim = 0
+    for e in w.inv.effects:
+        if e.kind not in MATERIALISE:
+            continue
+        lf_ = prog.owner_fn(e.body)
+        body_ = e.body
+        if body_ is not lf_.body:
+            continue
+        n_prim += 1
+        t_ = e.term
+
+        def is_prim(o, t_=t_):
+            return o.kind == "call" and o.term is t_ and o.path in AWAIT_PATHS
+        gates_ = try_gates(prog, body_, is_prim) + match_gates(prog, body_, is_prim, "Ok")
+        succ_ = []
+        for rd in ret_defs(prog, body_):
+            if rd.cls == "success" or rd.cls == "unknown":
+                succ_.append(rd)
+            elif rd.cls == "delegated" and not (rd.origin is not None and rd.origin.kind == "call" and (
+                    rd.origin.term is t_ or any(o.kind == "call" and o.term is t_ for o in prog.resolve_op(rd.origin.body, rd.origin.term.args[0], OKFLOW, rd.origin.blk)) if rd.origin.term.args else False)):
+                succ_.append(rd)
+        cf_ = prog.cfg(body_)
+        start_ = t_.target if t_.target is not None else e.blk
+        reach_ = cf_.reachable(start_, cut_edges={g.edge for g in gates_})
+        bad_ = [rd for rd in succ_ if rd.blk in reach_]
+        key_ = "%s:%s" % (fn_key(lf_), e.kind)
+        if bad_:
+            rep.violation("e-swallowed:%s" % key_,
+                          "`%s` can report success although its %s primitive failed (return at %s is reachable off the primitive's Ok arm): the "
+                          "destination would not hold the stored bytes" % (short(lf_.path), e.kind, blk_loc(body_, bad_[0].blk)),
+                          loc=blk_loc(body_, bad_[0].blk), config=cfg, rule="e-primitive-result")
+        else:
+            rep.ob(cfg, "e-primitive-result", key_, "success of `%s` requires its %s primitive to have returned Ok" % (short(lf_.path), e.kind))
+    rep.floor("materialising_primitives", n_prim, 1, cfg)
+
     # ---- (b) returned count ----
     n_cnt = 0
     for lf in prog.fns.values():
